@@ -21,6 +21,10 @@ def run_modes(ctx, modes, module, cfg, classify=None, vcpus=3, threads=4, ops=5,
         rows = vtlib.read_ndjson(trace)
         if not rows:
             raise vtlib.InfraError(f'{harness} --prim {prim} recorded nothing')
+        scripts = [r for r in rows if r.get('e') == 'Script']
+        rows = [r for r in rows if r.get('e') != 'Script']     # the executed script of a conductor run: documentation only
+        if scripts:
+            ctx.extra['conductor_scripts'] = ctx.extra.get('conductor_scripts', 0) + len(scripts)
         if on_rows:
             on_rows(prim, rows)
         acc, rejs, n = tracecheck.validate(ctx, module, cfg, rows, tagbase=f'{module}_{prim}', extra_env=extra_env)
